@@ -4,6 +4,7 @@ from architecture_simulator.uarch.memory.base_cache_memory_system import (
     BaseCacheMemorySystem,
 )
 from architecture_simulator.util.integer_manipulation import (
+    ByteOffsetError,
     byte_into_block,
     halfword_into_block,
     word_into_block,
@@ -109,6 +110,10 @@ class WriteThroughMemorySystem(BaseCacheMemorySystem):
             self.memory.write_halfword(address, value)
             return None
 
+        # A write miss goes straight to the lower memory, so reject accesses that cross a word boundary here
+        if decoded_address.byte_offset > 2:
+            raise ByteOffsetError(decoded_address.byte_offset, 2)
+
         block_values = self.cache.read_block(decoded_address)
         hit = block_values is not None
         self.hits += int(hit)
@@ -143,6 +148,10 @@ class WriteThroughMemorySystem(BaseCacheMemorySystem):
         if directly_write_to_lower_memory:
             self.memory.write_word(address, value)
             return None
+
+        # A write miss goes straight to the lower memory, so reject accesses that cross a word boundary here
+        if decoded_address.byte_offset != 0:
+            raise ByteOffsetError(decoded_address.byte_offset, 0)
 
         block_values = self.cache.read_block(decoded_address)
         hit = block_values is not None
